@@ -68,6 +68,11 @@ var c04Fixed = []string{
 	"catch((catch(m(X), _, w(i)), X > 1, throw(mid(X))), mid(Y), w(o(Y)))",
 	"catch(catch((m(X), X > 1), _, w(i)), E, w(o(E))), throw(out(X))",
 	"m(X), catch((X > 1, throw(x(X))), x(2), w(two))",
+	// the Goal of catch/3 is unbound or not callable: the error is raised inside the catch and its own Catcher sees it
+	"catch(G, error(E, _), w(caught(E)))", "catch(1, error(E, _), w(E))", "catch((true, 1), error(E, _), w(e))", "catch((fail ; 2), error(E, _), w(e))",
+	"G = 3, catch(G, error(E, _), w(E))", "catch(catch(G, nomatch, w(no)), error(E, _), w(outer(E)))", "catch(catch(1, error(E, _), w(inner(E))), _, w(outer))",
+	"findall(x, catch(G, _, w(c)), L), w(L)", "\\+ catch(1, _, fail)", "pc(_)", "pc(1)", "pc((m(X), w(X)))", "pc((w(a), 1))", "m(X), pc(X)",
+	"call(catch, G, error(E, _), w(c(E)))", "catch(pc(G), _, w(outer)), w(after)", "catch((m(X), pc(Y)), _, w(outer)), w(X)",
 }
 
 const c04Base = `
@@ -84,6 +89,7 @@ t(K, X) :- m(X), X >= K, throw(big(X)).
 t(_, 0).
 h5(X) :- m(X), !, X > 0, !, throw(two_cuts(X)).
 h6(X) :- integer(X), !, X > 0, !, atom_length(X, foo).
+pc(G) :- catch(G, error(E, _), w(pc(E))).
 `
 
 type c04Gen struct {
@@ -202,6 +208,13 @@ func (g *c04Gen) goal(depth int) string {
 		if strings.HasPrefix(catcher, "B") && g.r.Intn(2) == 0 {
 			// log what the catcher was bound to (the copy of the ball; error Contexts are normalised away)
 			rec = "w(caught(" + catcher + ")), " + rec
+		}
+		if g.r.Intn(10) == 0 {
+			// a Goal that is unbound or not callable when catch/3 is called
+			goal = []string{"_", "1", "_", "true, 1", "fail ; 2", "w(a), 2"}[g.r.Intn(6)] // (a shared variable may be bound to a list, which this engine consults)
+			if !strings.ContainsAny(goal, ",;") {
+				return "catch(" + goal + ", " + catcher + ", (" + rec + "))"
+			}
 		}
 		return "catch((" + goal + "), " + catcher + ", (" + rec + "))"
 	case k < 79:
